@@ -96,7 +96,12 @@ func Unpack(any *anypb.Any, fileResolver protodesc.Resolver, typeResolver protor
 			return nil, fmt.Errorf("protoFiles does not have descriptor %s: %w", any.TypeUrl, err)
 		}
 
-		typ = dynamicpb.NewMessageType(msgDesc.(protoreflect.MessageDescriptor))
+		msgDescriptor, ok := msgDesc.(protoreflect.MessageDescriptor)
+		if !ok {
+			return nil, fmt.Errorf("%s is not a message type", any.TypeUrl)
+		}
+
+		typ = dynamicpb.NewMessageType(msgDescriptor)
 
 	} else if err != nil {
 		return nil, err
